@@ -1095,7 +1095,9 @@ func (ws *wsConn) Close() error {
 }
 
 func (ws *wsConn) Read(p []byte) (n int, err error) {
-	if ws.buf == nil {
+	// an empty binary message carries no bytes of the stream: go on to the next one instead of returning (0, nil),
+	// which readers take for "no progress" when it happens too often in a row
+	for len(ws.buf) == 0 {
 		msgType, buf, err := ws.c.ReadMessage()
 		if err != nil {
 			return 0, err
